@@ -60,3 +60,101 @@ def random_bytes(rng, maxlen=12):
 
 def hist(d, key):
     d[key] = d.get(key, 0) + 1
+
+
+# ---------------------------------------------------------------- Windows / UTF-8 pools
+WSEEDS = [b'', b'\\\\?\\UNC\\s\\sh', b'\\\\?\\UNC\\s', b'\\\\?\\UNC\\', b'\\\\?\\UNC', b'//?/UNC/s/sh', b'\\\\?\\', b'\\\\.\\',
+          b'\\\\?\\C:', b'\\\\?\\c:', b'\\\\s\\sh', b'//s/sh', b'\\\\s', b'C:', b'c:', b'\\\\?\\pic', b'//./dev', b'\\\\?/C:',
+          b'\\\\.\\COM1', b'\\/?\\x', b'/\\s/sh', b'\\\\?\\UNC/s', b'z:', b'\\\\?\\UNC\\s\\sh\\', b'\\\\?\\C:\\', b'C:\\', b'C:/', b'\\',
+          b'/', b'\\\\?\\\\', b'//?/C:', b'\\\\.\\dev\\', b'\\\\s\\sh\\']
+WALPHA4 = [0x5c, 0x2f, 0x2e, 0x61]
+WALPHA7 = [0x5c, 0x2f, 0x2e, 0x3a, 0x3f, 0x61, 0x43]
+UALPHA4 = [0x2f, 0x2e, 0x61, 0x62]
+UALPHA6 = [0x2f, 0x2e, 0x61, 0x62, 0x00, 0xff]
+U8TOK = [b'/', b'\\', b'.', b':', b'a', '\u00e9'.encode(), '\u20ac'.encode(), '\U0001F600'.encode()]
+
+
+def wpaths_seeded(k):
+    for sd in WSEEDS:
+        for s in strings_upto(WALPHA4, k):
+            yield sd + s
+
+
+def utf8_strings_upto(k, toks=U8TOK):
+    for n in range(0, k + 1):
+        for s in itertools.product(toks, repeat=n):
+            yield b''.join(s)
+
+
+SEG_POOL_W = [b'a', b'b', b'.', b'..', b'', b'a.b', b'.a', b'a.', b'C:', b'a:b', b'x?', b'foo.txt', b'...', b'\xff', b'a|b', b'\x00',
+              b'UNC', b'?', b'a*', b'"q"', b'<', b'>']
+
+
+def random_win_path(rng, maxseg=5):
+    out = bytearray(rng.choice(WSEEDS)) if rng.random() < 0.6 else bytearray()
+    n = rng.randint(0, maxseg)
+    for i in range(n):
+        if i > 0 or rng.random() < 0.5:
+            out += bytes(rng.choice([0x5c, 0x5c, 0x2f]) for _ in range(rng.choice([1, 1, 1, 2])))
+        out += rng.choice(SEG_POOL_W)
+    if rng.random() < 0.35:
+        out += bytes(rng.choice([0x5c, 0x2f]) for _ in range(rng.choice([1, 2])))
+    return bytes(out)
+
+
+U8SEG = [b'a', '\u00e9'.encode(), '\u20ac.'.encode() + '\U0001F600'.encode(), b'.', b'..', b'x.' + '\u00e9\u00e9'.encode(),
+         '.\u00e9'.encode(), '\u00e9.'.encode(), b'C:', '\u00e9:'.encode(), b'', 'n\u0303.t\u20act'.encode(), '\U0001F600'.encode()]
+
+
+def random_utf8_path(rng, win, maxseg=5):
+    seps = [b'\\', b'\\', b'/'] if win else [b'/']
+    out = bytearray()
+    if win and rng.random() < 0.5:
+        out += rng.choice(WSEEDS)
+    elif rng.random() < 0.4:
+        out += rng.choice(seps)
+    n = rng.randint(0, maxseg)
+    for i in range(n):
+        if i > 0:
+            out += rng.choice(seps) * rng.choice([1, 1, 2])
+        out += rng.choice(U8SEG)
+    if rng.random() < 0.4:
+        out += rng.choice(seps) + rng.choice([b'', b'.', b'./', b'/'])
+    return bytes(out)
+
+
+def base_pool(win, rich=False):
+    """well-formed bases: each prefix kind or none, rooted or not, 0-2 components incl . and .., trailing separators"""
+    out = []
+    if win:
+        prefixes = [b'', b'C:', b'c:', b'\\\\s\\sh', b'//s/sh', b'\\\\?\\C:', b'\\\\?\\UNC\\s\\sh', b'\\\\?\\pic', b'\\\\.\\dev']
+        roots = [b'', b'\\', b'/']
+        seps = [b'\\', b'/']
+    else:
+        prefixes = [b'']
+        roots = [b'', b'/']
+        seps = [b'/']
+    bodies = [[], [b'a'], [b'.'], [b'..'], [b'a', b'b'], [b'a', b'..'], [b'.', b'a'], [b'a', b'.']]
+    if rich:
+        bodies += [[b'a.b'], [b'a', b'b', b'c'], [b'..', b'..'], [b'a.b', b'c.d']]
+    trail = [b''] + seps + ([b'\\/'] if win else [b'//'])
+    for px in prefixes:
+        for rt in roots:
+            if px.startswith(b'\\\\?\\') and rt == b'/':
+                continue
+            for body in bodies:
+                for sp in seps:
+                    if px.startswith(b'\\\\?\\') and sp == b'/':
+                        continue
+                    for tr in trail:
+                        if px.startswith(b'\\\\?\\') and b'/' in tr:
+                            continue
+                        if not body and tr and (rt or not px):
+                            continue
+                        s = px + rt + sp.join(body) + tr
+                        out.append(s)
+    seen, res = set(), []
+    for s in out:
+        if s not in seen:
+            seen.add(s); res.append(s)
+    return res
